@@ -1,5 +1,6 @@
 import MdVerif.Model.Formats
 import MdVerif.Proofs.MicLemmas
+import MdVerif.Proofs.TextLemmas
 import Mathlib.Tactic.Ring
 import Mathlib.Tactic.Linarith
 import Mathlib.Tactic.FieldSimp
@@ -99,3 +100,199 @@ example : stored .pdb 3 20 (123456 / 100000) = 12346 / 1000 ∧ loaded .pdb 3 20
   decide +kernel
 
 end MdVerif.Fmt
+
+/-! ## digit level: the text the writers emit and the readers scan (Model/TextFmt.lean) -/
+namespace MdVerif.Txt
+open MdVerif.Mic MdVerif.Fmt
+
+theorem c01_field_roundtrip (w p : Nat) (x : Rat) : parseField (fmtFixed w p x) = some (fixedQ p x) := by
+  have hp : 0 < pow10 p := by unfold pow10; positivity
+  have hq : (0 : Nat) < 10 ^ p := by positivity
+  set m := (scaled p x).natAbs with hm
+  have hu : parseUnsigned ((natDigits (m / 10 ^ p)).map digitChar ++ '.' :: (fracDigits p (m % 10 ^ p)).map digitChar)
+      = some ((m : Rat) / pow10 p) := by
+    rw [parseUnsigned_digits _ _ (natDigits_lt _) (fracDigits_lt _ _) (natDigits_ne_nil _)]
+    rw [ofDigits_natDigits, ofDigits_fracDigits, fracDigits_length, Nat.mod_mod]
+    have := natdiv_add_mod_cast m (10 ^ p) hq
+    have e : ((10 ^ p : Nat) : Rat) = pow10 p := by unfold pow10; push_cast; rfl
+    rw [e] at this
+    rw [this]
+  unfold parseField fmtFixed padLeft
+  rw [dropWhile_replicate_blank _ _ (fixedBody_head p x)]
+  have hs := scaled_sign p x
+  unfold fixedBody
+  by_cases hx : x < 0
+  · simp only [hx, if_true, List.cons_append, List.nil_append]
+    rw [← hm, hu]
+    simp only [Option.map_some, fixedQ]
+    have : ((scaled p x : Int) : Rat) = -((m : Nat) : Rat) := by
+      have h0 := hs.1 hx
+      have : (scaled p x) = -((m : Nat) : Int) := by omega
+      rw [this]; push_cast; ring
+    unfold scaled at this
+    rw [this]; congr 1; ring
+  · simp only [hx, if_false, List.nil_append]
+    rw [← hm]
+    have hne := natDigits_ne_nil (m / 10 ^ p)
+    cases hd : natDigits (m / 10 ^ p) with
+    | nil => exact absurd hd hne
+    | cons a l =>
+      have ha : a < 10 := natDigits_lt _ a (by rw [hd]; simp)
+      have hnm : digitChar a ≠ '-' := (digitChar_props a ha).2.2.2.1
+      rw [hd] at hu
+      simp only [List.map_cons, List.cons_append] at hu ⊢
+      split
+      · rename_i r heq
+        simp at heq
+        exact absurd heq.1 hnm
+      · rename_i r heq
+        rw [hu]
+        simp only [fixedQ]
+        have : ((scaled p x : Int) : Rat) = ((m : Nat) : Rat) := by
+          have h0 := hs.2 (not_lt.mp hx)
+          have : (scaled p x) = ((m : Nat) : Int) := by omega
+          rw [this]; push_cast; ring
+        unfold scaled at this
+        rw [this]
+
+theorem c01_field_width (w p : Nat) (x : Rat) : (fmtFixed w p x).length = max w (fixedBody p x).length := by
+  unfold fmtFixed padLeft
+  simp only [List.length_append, List.length_replicate]
+  omega
+
+/-- **which values fit**: the integer part may use the columns left by the sign, the point and the decimals -/
+theorem c01_fits_iff (w p : Nat) (x : Rat) (hw : p + 3 ≤ w) :
+    Fits w p x ↔ (scaled p x).natAbs < 10 ^ (w - p - 1 - (if x < 0 then 1 else 0)) * 10 ^ p := by
+  unfold Fits
+  rw [fixedBody_length]
+  have hq : (0 : Nat) < 10 ^ p := by positivity
+  by_cases hx : x < 0
+  · simp only [hx, if_true]
+    have := natDigits_length_le ((scaled p x).natAbs / 10 ^ p) (w - p - 1 - 1) (by omega)
+    rw [← Nat.div_lt_iff_lt_mul hq, ← this]; omega
+  · simp only [hx, if_false]
+    have := natDigits_length_le ((scaled p x).natAbs / 10 ^ p) (w - p - 1 - 0) (by omega)
+    rw [← Nat.div_lt_iff_lt_mul hq, ← this]; omega
+
+theorem c01_fixed_line_roundtrip (w p : Nat) (xs : List Rat) (hw : 0 < w) (hf : ∀ x ∈ xs, Fits w p x) :
+    parseFixedLine w (renderFixedLine w p xs) = some (xs.map (fixedQ p)) := by
+  unfold parseFixedLine renderFixedLine
+  induction xs with
+  | nil => simp [chunks_nil]
+  | cons x xs ih =>
+    have hx := hf x (by simp)
+    have ih' := ih (fun y hy => hf y (by simp [hy]))
+    simp only [List.map_cons, List.flatten_cons]
+    rw [chunks_append w _ _ (fits_length w p x hx) hw]
+    simp only [List.mapM_cons, c01_field_roundtrip, ih']
+    rfl
+
+/-- **an .mdcrd coordinate block reads back as the three-decimal rounding of every value**, provided each value fits its eight columns
+(the writer raises "Overflow error" otherwise, see `c01_mdcrd_overflow_detected`) -/
+theorem c01_mdcrd_frame_roundtrip (xs : List Rat) (hf : ∀ x ∈ xs, Fits 8 3 x) :
+    mdcrdParse (mdcrdFrame xs) = some (xs.map (fixedQ 3)) := by
+  unfold mdcrdParse mdcrdFrame
+  have key : ∀ gs : List (List Rat), (∀ g ∈ gs, ∀ x ∈ g, Fits 8 3 x) →
+      ((gs.map (renderFixedLine 8 3)).mapM (parseFixedLine 8)) = some (gs.map (List.map (fixedQ 3))) := by
+    intro gs
+    induction gs with
+    | nil => intro _; rfl
+    | cons g gs ih =>
+      intro h
+      have h1 := c01_fixed_line_roundtrip 8 3 g (by norm_num) (h g (by simp))
+      have h2 := ih (fun g' hg' => h g' (by simp [hg']))
+      simp only [List.map_cons, List.mapM_cons, h1, h2]
+      rfl
+  rw [key _ (fun g hg x hx => hf x ((groupsOf_mem 10 xs g hg).1 x hx))]
+  simp only [Option.map_some]
+  rw [← List.map_flatten, groupsOf_flatten 10 (by norm_num)]
+
+/-- every line of the block holds at most ten fields, i.e. at most 80 columns -/
+theorem c01_mdcrd_line_width (xs : List Rat) (hf : ∀ x ∈ xs, Fits 8 3 x) : ∀ l ∈ mdcrdFrame xs, l.length ≤ 80 ∧ l ≠ [] := by
+  intro l hl
+  unfold mdcrdFrame at hl
+  rcases List.mem_map.mp hl with ⟨g, hg, rfl⟩
+  have hm := groupsOf_mem 10 xs g hg
+  have hlen : ∀ g : List Rat, (∀ x ∈ g, Fits 8 3 x) → (renderFixedLine 8 3 g).length = 8 * g.length := by
+    intro g
+    induction g with
+    | nil => intro _; simp [renderFixedLine]
+    | cons a g ih =>
+      intro h
+      have ha : (fmtFixed 8 3 a).length = 8 := by
+        rw [c01_field_width]; have := h a (by simp); unfold Fits at this; omega
+      have := ih (fun y hy => h y (by simp [hy]))
+      simp only [renderFixedLine, List.map_cons, List.flatten_cons, List.length_append, ha] at this ⊢
+      simp only [List.length_cons]; omega
+  have := hlen g (fun x hx => hf x (hm.1 x hx))
+  constructor
+  · rw [this]; have := hm.2.1; omega
+  · intro e
+    have h0 : g.length = 0 := by
+      rw [e] at this; simp only [List.length_nil] at this; omega
+    exact hm.2.2 (List.length_eq_zero_iff.mp h0)
+
+/-- the writer's overflow test `len(out) > 8` fires exactly for the values that do not fit -/
+theorem c01_mdcrd_overflow_detected (x : Rat) : 8 < (fmtFixed 8 3 x).length ↔ ¬ Fits 8 3 x := by
+  rw [c01_field_width]; unfold Fits; omega
+
+theorem c01_pdb83_width (x : Rat) (s : List Char) (h : pdb83 x = some s) : s.length = 8 := by
+  unfold pdb83 at h
+  have hw := c01_field_width 8 3 x
+  by_cases h1 : (fmtFixed 8 3 x).length = 8
+  · simp [h1] at h; rw [← h]; exact h1
+  · simp only [h1, if_false] at h
+    split at h
+    · simp at h; rw [← h, List.length_take]; omega
+    · simp at h
+
+theorem c01_pdb83_fits (x : Rat) (h : Fits 8 3 x) : (pdb83 x).bind parseField = some (fixedQ 3 x) := by
+  unfold pdb83
+  have : (fmtFixed 8 3 x).length = 8 := by rw [c01_field_width]; unfold Fits at h; omega
+  simp [this, c01_field_roundtrip]
+
+/-- **blank-separated records** (`.xyz`, `.lammpstrj`, the mdcrd box line): whatever the magnitudes, `line.split()` recovers every field,
+because a separator is always written -/
+theorem c01_spaced_roundtrip (w p : Nat) (xs : List Rat) : parseTokens (renderSpaced w p xs) = some (xs.map (fixedQ p)) := by
+  unfold parseTokens
+  rw [splitWs_renderSpaced]
+  induction xs with
+  | nil => rfl
+  | cons x xs ih =>
+    have := c01_field_roundtrip 0 p x
+    rw [fmtFixed_zero] at this
+    simp only [List.map_cons, List.mapM_cons, this, ih]
+    rfl
+
+end MdVerif.Txt
+
+namespace MdVerif.Txt
+open MdVerif.Mic MdVerif.Fmt
+
+/-- the box line `"{:8.3f} {:8.3f} {:8.3f}"` is read back by the peek as its three rounded lengths, whatever their magnitude -/
+theorem c01_mdcrd_box_roundtrip (a b c : Rat) : mdcrdPeek (mdcrdBoxLine a b c) = some [fixedQ 3 a, fixedQ 3 b, fixedQ 3 c] := by
+  have h := c01_spaced_roundtrip 8 3 [a, b, c]
+  have e : renderSpaced 8 3 [a, b, c] = ' ' :: mdcrdBoxLine a b c := by
+    simp [renderSpaced, mdcrdBoxLine]
+  rw [e] at h
+  unfold mdcrdPeek
+  unfold parseTokens splitWs at h ⊢
+  simpa [splitWsAux, isBlank] using h
+
+/-- non-vacuity: −275.303 fills its eight columns exactly, −1000 Å does not fit, 9999.999 does, 10000 does not -/
+example : Fits 8 3 (-275303 / 1000) ∧ ¬ Fits 8 3 (-1000) ∧ Fits 8 3 (9999999 / 1000) ∧ ¬ Fits 8 3 10000 := by decide +kernel
+
+/-- the case repaired by 378cb2b2: a three-field coordinate line whose negative values touch is *not* a box line for the peek
+(`float("-275.303-351.348")` is a `ValueError`), while the fixed-column reader recovers all three values -/
+theorem c01_touching_fields_witness :
+    mdcrdPeek (renderFixedLine 8 3 [-275303 / 1000, -351348 / 1000, -1]) = none ∧
+    parseFixedLine 8 (renderFixedLine 8 3 [-275303 / 1000, -351348 / 1000, -1]) = some [-275303 / 1000, -351348 / 1000, -1] := by
+  decide +kernel
+
+/-- **known finding, as a theorem about the format**: the coordinate line of a one-atom frame whose fields do not touch has exactly the
+shape of a box line — the peek accepts it, so a cell-less multi-frame one-atom .mdcrd cannot be told from a file with cells -/
+theorem c01_counterexample_one_atom :
+    mdcrdPeek (renderFixedLine 8 3 [1, 2, 3]) = some [1, 2, 3] ∧ mdcrdPeek (mdcrdBoxLine 1 2 3) = some [1, 2, 3] := by
+  decide +kernel
+
+end MdVerif.Txt
